@@ -10,7 +10,7 @@ wt = f"{BASE}/{prop}/wt" if os.path.isdir(f"{BASE}/{prop}/wt") else f"{BASE}/{pr
 out = f"{BASE}/{prop}/out"
 env = dict(os.environ, GOFLAGS="-mod=mod", GOPROXY="off", GOSUMDB="off", GOTOOLCHAIN="local")
 def sh(cmd, cwd=None, timeout=1800):
-    p = subprocess.run(cmd, cwd=cwd, env=env, shell=True, stdout=subprocess.PIPE, stderr=subprocess.STDOUT, text=True, timeout=timeout)
+    p = subprocess.run(cmd, cwd=cwd, env=env, shell=True, stdout=subprocess.PIPE, stderr=subprocess.STDOUT, text=True, errors="replace", timeout=timeout)
     return p.returncode, p.stdout
 patch = f"{out}/mut{n}.diff"
 demo = [f for f in os.listdir(out) if f.startswith(f"mut{n}_demo")]
